@@ -1,6 +1,7 @@
 """C13 — safe code cannot adopt a pointer without a barrier (DESIGN.md §4 C13): enumerate every way
 safe code can obtain a &Write<T> or an unlocked cell and check each against a reviewed table."""
 from gcv import facts, model, witness
+from gcv.props import common
 from gcv.model import norm
 
 WRITE = "barrier::Write"
@@ -41,7 +42,9 @@ def run(chk, tier):
                 "cell accessors are unsafe. R13.5 every function in lock.rs reaching a mutating cell method is "
                 "unsafe, takes &mut/self, goes through a barrier (C06 table), or is a reviewed Default-take. R13.6 no "
                 "Collect impl for an interior-mutability type without 'static. R13.7 witnesses incl. the three "
-                "use-after-free exploit programs (must be rejected).")
+                "use-after-free exploit programs (must be rejected). R13.8 every exported macro whose expansion "
+                "contains `unsafe` and deals in Write / barrier items is in the reviewed table (field!), so no new "
+                "macro can hand safe code a &Write projection or constructor unreviewed.")
     chk.not_decided += ["the closing meta-theorem 'every safe program satisfies C01' (argued in DESIGN.md §7 from "
                         "R13.1-R13.6)", "accepted probes are not run"]
     chk.extra["feature_configs"] = configs
@@ -52,6 +55,7 @@ def run(chk, tier):
         index_write(chk, prog, c)
         unlock(chk, prog, c)
         lock_mutators(chk, prog, c)
+        common.unsafe_macros(chk, prog, "C13", c)
     witness.report(chk, "C13", rule="witness", floor=18, tier=tier)
 
 
